@@ -38,7 +38,7 @@ class Fam:
             n, v = self.val(64, 'BigUnsigned'); self.pos.append(('limit', n)); calls.append(['limit', v['v']])
         return {'k': 'select', 'calls': calls}
 
-EXTRA_TOGGLES = ['ulimit', 'utype', 'ordnulls', 'ordfunc', 'frame']
+EXTRA_TOGGLES = ['ulimit', 'utype', 'ordnulls', 'ordfunc', 'frame', 'jkind', 'jsub', 'lockkind', 'funcs']
 DIALECT_TOGGLES = ['hint', 'sample', 'distinct_on', 'lock', 'namedwin', 'search', 'cycle', 'materialized', 'upjoin', 'dokeys', 'donothing']
 SELECT_TOGGLES = ['distinct', 'valitem', 'case', 'cust', 'from', 'arity', 'vrows', 'join', 'w1', 'w2', 'insub', 'group', 'having', 'union', 'order', 'limit', 'offset', 'window', 'cte']
 
@@ -77,7 +77,10 @@ def select_family(f):
         calls.append(['from_values', rows, 'vl'])
     if fk == 0 and f.b == 'mysql' and f.opt('hint'): calls.append(['index_hint', 'force', 'idx1', 'Join']); calls.append(['index_hint', 'ignore', 'idx2', 'All'])
     if fk == 0 and f.b == 'postgres' and f.opt('sample'): calls.append(['table_sample', 'SYSTEM', 0x4045000000000000, None])
-    if f.opt('join'): calls.append(['join', 'LeftJoin', ['t', 'j'], ['all', False, [f.cmp()]]])
+    if f.opt('join'):
+        jk = ['LeftJoin', 'InnerJoin', 'RightJoin', 'Join', 'FullOuterJoin'][f.pick('jkind', 4 if f.b == 'mysql' else 5)]      # MySQL has no FULL OUTER JOIN
+        if f.opt('jsub'): calls.append(['join_subquery', jk, f.small_select('js'), 'jsa', ['all', False, [f.cmp()]]])
+        else: calls.append(['join', jk, ['t', 'j'], ['all', False, [f.cmp()]]])
     if f.opt('w1'): calls.append(['and_where', f.cmp()])
     if f.opt('w2'): calls.append(['cond_where', ['any', False, [f.cmp(), f.cmp()]]])
     if f.opt('insub'): calls.append(['and_where', ['m', 'in_subquery', C('q'), f.small_select('insub')]])
@@ -117,7 +120,9 @@ def select_family(f):
         n, v = f.val(64, 'BigUnsigned'); f.pos.append(('limit', n)); calls.append(['limit', v['v']])
     if f.opt('offset'):
         n, v = f.val(64, 'BigUnsigned'); f.pos.append(('offset', n)); calls.append(['offset', v['v']])
-    if f.b != 'sqlite' and f.opt('lock'): calls.append(['lock', 'Update'])
+    if f.b != 'sqlite' and f.opt('lock'):
+        lk = f.pick('lockkind', 4)
+        calls.append([['lock', 'Update'], ['lock_with_behavior', 'Share', 'SkipLocked'], ['lock_with_tables', 'Update', [['t', 't']]], ['lock_with_behavior', 'Update', 'Nowait']][lk])
     return {'k': 'select', 'calls': calls}
 
 INSERT_TOGGLES = ['rows', 'cols', 'select', 'conflict', 'cwhere', 'returning', 'cte', 'defaults', 'dnfirst']
@@ -211,7 +216,7 @@ def with_family(f):
 
 FAMILIES = {
     # name: (generator, toggle groups for the quick tier, toggles of the thorough tier)
-    'select': (select_family, [['distinct', 'valitem', 'case', 'cust', 'from', 'cte', 'funcs'], ['from', 'arity', 'vrows', 'join', 'w1', 'insub'], ['w2', 'group', 'having', 'join', 'w1'], ['w1', 'union', 'order', 'limit', 'offset', 'window'],
+    'select': (select_family, [['distinct', 'valitem', 'case', 'cust', 'from', 'cte', 'funcs'], ['from', 'arity', 'vrows', 'join', 'w1', 'insub'], ['w2', 'group', 'having', 'join', 'jkind', 'jsub', 'w1'], ['w1', 'union', 'order', 'limit', 'offset', 'window'],
                                ['union', 'utype', 'ulimit', 'order', 'ordnulls', 'ordfunc', 'window', 'frame']],
                [SELECT_TOGGLES[:10], SELECT_TOGGLES[5:15], SELECT_TOGGLES[9:], ['valitem', 'cust', 'from', 'arity', 'w1', 'union', 'order', 'limit', 'offset', 'window'],
                 ['from', 'union', 'utype', 'ulimit', 'order', 'ordnulls', 'ordfunc', 'window', 'frame', 'limit', 'offset'], ['cte', 'distinct', 'case', 'insub', 'group', 'having', 'union', 'utype', 'window', 'frame']]),
